@@ -6,4 +6,5 @@ cd "$(dirname "$0")/.."
 if [ ! -x bin/gosym ]; then
   (cd engine && GOFLAGS=-mod=mod GOPROXY=off GOSUMDB=off GOTOOLCHAIN=local go build -o ../bin/gosym ./cmd/gosym) || exit 2
 fi
+export VERIF_ROOT="$(pwd)"
 exec bin/gosym check "$1" --tier "${2:-quick}" --seed "${VERIF_SEED:-1}"
